@@ -97,3 +97,19 @@ package lastgersync
 //@   ensures[a-present-row-at-or-above] result1 == nil ==> result0.L1InfoTreeIndex >= l1InfoTreeIndex && exists(b, int, gerHas[b] && gerIdxAt[b] == result0.L1InfoTreeIndex && gerRootAt[b] == result0.GlobalExitRoot)
 //@   ensures[the-first-such-row] result1 == nil ==> forall(b, int, (gerHas[b] && gerIdxAt[b] >= l1InfoTreeIndex) ==> gerIdxAt[b] >= result0.L1InfoTreeIndex)
 //@   ensures[not-found-only-if-none-exists] result1 == db.ErrNotFound ==> forall(b, int, gerHas[b] ==> gerIdxAt[b] < l1InfoTreeIndex)
+
+// ---- reorg of the injected-GER store (C04): a single DELETE over the block table (pinned); the rows of
+// imported_global_exit_root follow by ON DELETE CASCADE (block_num REFERENCES block(num), assumed A5)
+//@ extern (*database/sql.DB).ExecContext@lastgersync.(*processor).Reorg (db, ctx, query, args)
+//@   modifies gerHas, stmtFail
+//@   ensures stmtFail == old(stmtFail) + ite(result1 == nil, 0, 1)
+//@   ensures result1 == nil ==> forall(b, int, gerHas[b] == (old(gerHas)[b] && b < caller.firstReorgedBlock))
+//@   ensures result1 != nil ==> gerHas == old(gerHas)
+
+//@ func (p *processor) Reorg
+//@   props C04 C16
+//@   sqltext "DELETE FROM block WHERE num >= $1;"
+//@   requires p != nil && p.database != nil
+//@   modifies gerHas, stmtFail
+//@   ensures[rows-from-that-block-on-dropped] result == nil ==> forall(b, int, gerHas[b] == (old(gerHas)[b] && b < firstReorgedBlock))
+//@   ensures[failure-changes-nothing] result != nil ==> gerHas == old(gerHas)
